@@ -56,6 +56,20 @@ def action(I, w, name):
     return cache[name]
 
 
+def _generic_arm(v, p):
+    """the arm of a value merged on a test of the portion against 1 that holds for a generic portion (p != 1)"""
+    while isinstance(v, Phi):
+        c = v.cond
+        at1 = c.subs(p, 1) if hasattr(c, "subs") else c
+        if at1 is sp.true or at1 is True:
+            v = v.b          # the condition singles out p == 1: the other arm is the generic one
+        elif at1 is sp.false or at1 is False:
+            v = v.a
+        else:
+            raise AnalysisError(f"replace(): result depends on an unexpected condition {c}")
+    return v
+
+
 def run(ctx):
     w = world(ctx)
     I, A = w.I, w.atoms
@@ -150,8 +164,7 @@ def run(ctx):
             ("partial", p, {H1: q[0] * (1 - p), O: q[1], D: q[2] + q[0] * p})):
         r = I.call(I.getattr(f, "replace"), [H1, D], {"portion": portion})
         got_atoms = I.getattr(r, "atoms")
-        if isinstance(got_atoms, Phi):
-            got_atoms = got_atoms.b  # arm portion != 1
+        got_atoms = _generic_arm(got_atoms, p)
         dict_eq(ctx, "R3", f"replace ({label}): other counts kept, source moved to target", got_atoms, want_atoms, s_sub)
         mass1 = mass0 + q[0] * portion * (mass_sym("D") - mass_sym("H1"))
         eq(ctx, "R3", f"replace ({label}): density scales with the mass (cell volume kept)",
@@ -162,8 +175,7 @@ def run(ctx):
         mt = I.getattr(tgt, "mass")
         r = I.call(I.getattr(f, "replace"), [O, tgt], {"portion": p})
         got_atoms = I.getattr(r, "atoms")
-        if isinstance(got_atoms, Phi):
-            got_atoms = got_atoms.b
+        got_atoms = _generic_arm(got_atoms, p)
         dict_eq(ctx, "R3", f"replace (O by {kind}, partial): other counts kept, source moved to target", got_atoms,
                 {H1: q[0], O: q[1] * (1 - p), D: q[2], tgt: q[1] * p}, s_sub)
         eq(ctx, "R3", f"replace (O by {kind}, partial): density scales with the mass (cell volume kept)",
